@@ -240,6 +240,209 @@ fn enc_case(ctx: &Ctx, acc: &Acc, enc: &'static encoding_rs::Encoding, bytes: &[
     }
 }
 
+/// an io::Read that hands out `step` bytes per call, reports Interrupted `interrupted` times first and fails
+/// with a hard error once `fail_at` bytes have been delivered
+struct Dribble<'a> {
+    data: &'a [u8],
+    pos: usize,
+    step: usize,
+    fail_at: Option<usize>,
+    interrupted: u32,
+}
+impl std::io::Read for Dribble<'_> {
+    fn read(&mut self, buf: &mut [u8]) -> std::io::Result<usize> {
+        if self.interrupted > 0 {
+            self.interrupted -= 1;
+            return Err(std::io::Error::from(std::io::ErrorKind::Interrupted));
+        }
+        if let Some(f) = self.fail_at {
+            if self.pos >= f {
+                return Err(std::io::Error::from(std::io::ErrorKind::BrokenPipe));
+            }
+        }
+        let n = self.step.min(buf.len()).min(self.data.len() - self.pos);
+        buf[..n].copy_from_slice(&self.data[self.pos..self.pos + n]);
+        self.pos += n;
+        Ok(n)
+    }
+}
+
+fn rec_problem(rec: &Rec, want: &[u8], nrep: Option<usize>) -> Option<&'static str> {
+    if rec.out != want {
+        Some("decoded-text")
+    } else if rec.invalid_piece {
+        Some("invalid-utf8-piece")
+    } else if nrep.is_some_and(|n| rec.errors != n) {
+        Some("error-count")
+    } else {
+        None
+    }
+}
+
+/// The other ways TendrilSink accepts a byte stream (`one`, `from_iter`, `read_from` with readers that deliver
+/// everything at once / a few bytes per call / after Interrupted / fail half way, `from_file`): the same
+/// decode as process()+finish(), for the UTF-8 decoder and an encoding_rs decoder.
+fn front_ends(ctx: &Ctx, acc: &Acc, bytes: &[u8], label: &str) {
+    let want8 = String::from_utf8_lossy(bytes).into_owned();
+    let nrep = bytes.utf8_chunks().filter(|c| !c.invalid().is_empty()).count();
+    let (want_sj, _, _) = encoding_rs::SHIFT_JIS.decode(bytes);
+    let mut report = |how: String, r: Result<Rec, String>, want: &[u8], nrep: Option<usize>| {
+        acc.evals.fetch_add(1, Ordering::Relaxed);
+        match r {
+            Err(p) => {
+                ctx.violation("panic", &format!("front-end {how} input={label}"), json!({"panic": p}));
+            },
+            Ok(rec) => {
+                if let Some(k) = rec_problem(&rec, want, nrep) {
+                    ctx.violation(k, &format!("front-end {how} input={label}"), json!({"want_len": want.len(), "got_len": rec.out.len(), "errors": rec.errors, "first_difference": rec.out.iter().zip(want.iter()).position(|(a, b)| a != b)}));
+                }
+            },
+        }
+    };
+    for sj in [false, true] {
+        let want: &[u8] = if sj { want_sj.as_bytes() } else { want8.as_bytes() };
+        let nr = if sj { None } else { Some(nrep) };
+        let name = if sj { "Shift_JIS" } else { "utf8" };
+        macro_rules! dec {
+            () => {
+                if sj { LossyDecoder::new_encoding_rs(encoding_rs::SHIFT_JIS, Rec::default()) } else { LossyDecoder::utf8(Rec::default()) }
+            };
+        }
+        report(format!("{name} one"), guarded(|| dec!().one(ByteTendril::from_slice(bytes))), want, nr);
+        for k in [1usize, 3, 4095, 4096, 4097] {
+            let chunks: Vec<ByteTendril> = bytes.chunks(k).map(ByteTendril::from_slice).collect();
+            report(format!("{name} from_iter chunk={k}"), guarded(|| dec!().from_iter(chunks)), want, nr);
+        }
+        for (step, intr) in [(usize::MAX, 0u32), (1, 0), (3, 0), (4095, 0), (4097, 0), (7, 3)] {
+            let r = guarded(|| {
+                let mut rd = Dribble { data: bytes, pos: 0, step, fail_at: None, interrupted: intr };
+                dec!().read_from(&mut rd)
+            });
+            let r = match r {
+                Ok(Ok(rec)) => Ok(rec),
+                Ok(Err(e)) => Err(format!("read_from returned an error from a reader that never fails: {e}")),
+                Err(p) => Err(p),
+            };
+            report(format!("{name} read_from step={step} interrupted={intr}"), r, want, nr);
+        }
+        // a reader that fails: the error comes back, nothing panics
+        let r = guarded(|| {
+            let mut rd = Dribble { data: bytes, pos: 0, step: 5, fail_at: Some(bytes.len() / 2), interrupted: 0 };
+            dec!().read_from(&mut rd).is_err()
+        });
+        acc.evals.fetch_add(1, Ordering::Relaxed);
+        match r {
+            Ok(true) => {},
+            Ok(false) => {
+                if bytes.len() >= 2 {
+                    ctx.violation("read-error-swallowed", &format!("front-end {name} read_from failing reader input={label}"), json!({}));
+                }
+            },
+            Err(p) => {
+                ctx.violation("panic", &format!("front-end {name} read_from failing reader input={label}"), json!({"panic": p}));
+            },
+        }
+        let path = format!("{VERIF}/engine/target/run/c10-{}-{:x}.bin", std::process::id(), digest(&(label, sj)) as u64);
+        let _ = std::fs::create_dir_all(format!("{VERIF}/engine/target/run"));
+        if std::fs::write(&path, bytes).is_ok() {
+            let r = guarded(|| dec!().from_file(&path));
+            let _ = std::fs::remove_file(&path);
+            let r = match r {
+                Ok(Ok(rec)) => Ok(rec),
+                Ok(Err(e)) => Err(format!("from_file: {e}")),
+                Err(p) => Err(p),
+            };
+            report(format!("{name} from_file"), r, want, nr);
+        }
+    }
+    // the stand-alone pieces of utf8_decode.rs: decode_utf8_lossy + IncompleteUtf8::try_complete
+    for k in [1usize, 2, 3, 5, 4096] {
+        let r = guarded(|| {
+            let mut rec = Rec::default();
+            let mut pending: Option<tendril::IncompleteUtf8> = None;
+            for c in bytes.chunks(k) {
+                let mut t = ByteTendril::from_slice(c);
+                if let Some(mut inc) = pending.take() {
+                    match inc.try_complete(t, |s| rec.process(s)) {
+                        Ok(rest) => t = rest,
+                        Err(()) => {
+                            pending = Some(inc);
+                            continue;
+                        },
+                    }
+                }
+                pending = t.decode_utf8_lossy(|s| rec.process(s));
+            }
+            if pending.is_some() {
+                rec.process(StrTendril::from_slice("\u{fffd}"));
+            }
+            rec
+        });
+        report(format!("decode_utf8_lossy+try_complete chunk={k}"), r, want8.as_bytes(), None);
+    }
+}
+
+/// inputs long enough to cross the reader's 4 KiB buffer and the 8 KiB output window of the encoding_rs
+/// loop (OutputFull), with multi-byte sequences straddling those boundaries
+fn long_inputs() -> Vec<(String, Vec<u8>)> {
+    let mut v = vec![];
+    for n in [0usize, 1, 5, 4094, 4095, 4096, 4097, 8191, 8192, 8193, 12289, 20000] {
+        for (fname, unit) in [("ascii", &b"a"[..]), ("e-acute", "\u{e9}".as_bytes()), ("euro", "\u{20ac}".as_bytes()), ("emoji", "\u{1F600}".as_bytes()), ("sjis-lead", &[0x95, 0x5C][..]), ("high", &[0xE9][..])] {
+            for shift in 0..unit.len().min(2) {
+                let mut b: Vec<u8> = vec![b'x'; shift];
+                while b.len() < n {
+                    b.extend_from_slice(unit);
+                }
+                b.truncate(n);
+                v.push((format!("{fname} len={n} shift={shift}"), b));
+            }
+        }
+    }
+    v
+}
+
+/// encoding_rs decoders on long chunks: one chunk, and two chunks cut around the 8 KiB window
+fn long_chunks(ctx: &Ctx, acc: &Acc) {
+    let encs = [encoding_rs::WINDOWS_1252, encoding_rs::SHIFT_JIS, encoding_rs::UTF_16LE, encoding_rs::UTF_16BE, encoding_rs::GBK, encoding_rs::UTF_8, encoding_rs::ISO_2022_JP, encoding_rs::EUC_KR];
+    let inputs = long_inputs();
+    inputs.par_iter().for_each(|(label, bytes)| {
+        for enc in encs {
+            let (want, _, _) = enc.decode(bytes);
+            let mut cuts: Vec<Option<usize>> = vec![None];
+            for c in [1usize, 2730, 2731, 4096, 8191, 8192, 8193] {
+                if c < bytes.len() {
+                    cuts.push(Some(c));
+                }
+            }
+            for cut in cuts {
+                acc.evals.fetch_add(1, Ordering::Relaxed);
+                let r = guarded(|| {
+                    let mut d = LossyDecoder::new_encoding_rs(enc, Rec::default());
+                    match cut {
+                        None => d.process(ByteTendril::from_slice(bytes)),
+                        Some(c) => {
+                            d.process(ByteTendril::from_slice(&bytes[..c]));
+                            d.process(ByteTendril::from_slice(&bytes[c..]));
+                        },
+                    }
+                    d.finish()
+                });
+                let w = format!("long-chunk {} input={label} cut={cut:?}", enc.name());
+                match r {
+                    Err(p) => {
+                        ctx.violation("panic", &w, json!({"panic": p}));
+                    },
+                    Ok(rec) => {
+                        if let Some(k) = rec_problem(&rec, want.as_bytes(), None) {
+                            ctx.violation(k, &w, json!({"want_len": want.len(), "got_len": rec.out.len(), "first_difference": rec.out.iter().zip(want.as_bytes().iter()).position(|(a, b)| a != b)}));
+                        }
+                    },
+                }
+            }
+        }
+    });
+}
+
 pub fn main(ctx: &Ctx) -> ! {
     let acc = Acc { evals: AtomicU64::new(0), strings: AtomicU64::new(0), outcomes: Mutex::new(BTreeSet::new()) };
     // 1. Utf8LossyDecoder: all byte strings over the boundary alphabet
@@ -362,6 +565,16 @@ pub fn main(ctx: &Ctx) -> ! {
             }
         }
     }
+    // 4. the other front ends and long inputs
+    long_chunks(ctx, &acc);
+    {
+        let mut inputs = long_inputs();
+        for b in enumerate_strings(&UTF8_ALPHABET, 2) {
+            inputs.push((format!("{b:02X?}"), b));
+        }
+        inputs.par_iter().for_each(|(label, bytes)| front_ends(ctx, &acc, bytes, label));
+    }
+    ctx.assume("front ends: one / from_iter / read_from (whole, 1, 3, 4095, 4097 bytes per read, Interrupted first, failing half way) / from_file and the stand-alone decode_utf8_lossy + IncompleteUtf8::try_complete pair, over the short strings and over inputs of 0..20000 bytes whose multi-byte units straddle the 4 KiB read buffer and the 8 KiB encoding_rs output window");
     ctx.assume("UTF-8 alphabet {41,80,BF,C0,C2,DF,E0,A0,9F,ED,EF,F0,90,8F,F4,F5,FF}: every lead/continuation class of the UTF-8 table; oracle String::from_utf8_lossy (std)");
     ctx.assume("encoding_rs: 39 encodings with per-family byte alphabets of 3-11 bytes (ASCII, lead, trail, invalid trail, ESC sequences, surrogate halves, BOMs); oracle Encoding::decode (one shot) - encoding_rs itself is the trusted base");
     ctx.finish(
@@ -381,6 +594,22 @@ pub fn replay(ctx: &Ctx, v: &serde_json::Value) {
     let w = v["witness"].as_str().unwrap_or("");
     // "<kind> chunks=[AA BB | CC] empty_at=.."
     let kind = w.split(' ').next().unwrap_or("");
+    if kind == "long-chunk" || kind == "front-end" {
+        // cheap and deterministic: re-run the whole job, the witness names the case that failed
+        let acc = Acc { evals: AtomicU64::new(0), strings: AtomicU64::new(0), outcomes: Mutex::new(BTreeSet::new()) };
+        if kind == "long-chunk" {
+            long_chunks(ctx, &acc);
+        } else {
+            for (label, bytes) in long_inputs() {
+                front_ends(ctx, &acc, &bytes, &label);
+            }
+            for b in enumerate_strings(&UTF8_ALPHABET, 2) {
+                front_ends(ctx, &acc, &b, &format!("{b:02X?}"));
+            }
+        }
+        println!("replay: {}", if ctx.violations() == 0 { "passes" } else { "FAILS" });
+        return;
+    }
     let i = w.find("chunks=[").unwrap() + 8;
     let j = w[i..].find(']').unwrap() + i;
     let mut bytes = vec![];
